@@ -48,7 +48,7 @@ theorem cast_assertions_are_the_code (t : TView) (s off n : Int) (isRaw : Bool) 
     (CAST_S_reinterpret_n_asserts t s n && t.v.lay.scaleAsserts t.esz s) = t.reinterpretNAsserts s n := by
   refine ⟨?_, ?_, ?_, ?_, ?_, ?_⟩ <;>
     simp [beq_decide, CAST_member_asserts, CAST1_member_asserts, CAST_reinterpret_aux_asserts, CAST_S_reinterpret_asserts, CAST_reinterpret_n_asserts,
-      CAST_S_reinterpret_n_asserts, TView.memberCastAsserts, TView.reinterpretAsserts, TView.reinterpretNAsserts]
+      CAST_S_reinterpret_n_asserts, TView.memberCastAsserts, TView.reinterpretAsserts, TView.reinterpretNAsserts] <;> grind
 
 theorem reinterpret1_asserts_tie (e o b : Int) (d : Dim) (s : Int) :
     CAST1_reinterpret_asserts ⟨e, o, ⟨b, [d]⟩⟩ s = TView.reinterpret1Asserts ⟨e, o, ⟨b, [d]⟩⟩ s := by
